@@ -92,6 +92,18 @@ pub fn run(ctx: &mut Ctx) {
         }
     }
     // three-part family around the Base256 length-field edge (deterministic)
+    // end-of-data tail family (deterministic): packed-mode runs of every length 0..=42 x every tail of <= 3 characters
+    {
+        let step = if ctx.is_thorough() { 1 } else { 2 };
+        let mut i = ctx.shard * step;
+        while i < inputs::tail_family_count() {
+            let input = inputs::tail_family_case(i);
+            let list = match i % 5 { 0 => "all", _ => "default" };
+            let mask = match i % 7 { 0 => 62u8, 1 => 17, _ => 63 };
+            eval(ctx, &EncCase { input, list: list.into(), mask, macros: false, fnc1: false, eci: None, order: 0, prelude: 0, skipdef: false }, "tail_family");
+            i += step * ctx.nshards;
+        }
+    }
     let fam_step = 1;
     let mut i = ctx.shard * fam_step;
     while i < inputs::family_count() {
